@@ -55,6 +55,9 @@ type Report struct {
 	minCounts   map[string]int // rule -> confirmed minimum instance count
 	ruleSeen    map[string]int
 	Info        []string
+	// ruleAlias, when set, renames (or with "-" drops) the rules recorded by a
+	// borrowed sub-check of another property.
+	ruleAlias map[string]string
 }
 
 func NewReport(prop, tier string, seed int64) *Report {
@@ -63,6 +66,13 @@ func NewReport(prop, tier string, seed int64) *Report {
 }
 
 func (r *Report) add(rule, key string, v Verdict, pos token.Pos, insts int, format string, a ...any) *Ob {
+	if r.ruleAlias != nil {
+		to, ok := r.ruleAlias[rule]
+		if !ok || to == "-" {
+			return &Ob{}
+		}
+		rule = to
+	}
 	full := r.Prop + "/" + rule + "/" + key
 	if r.keys[full] {
 		// keep keys unique but stable: suffix with ordinal
@@ -112,7 +122,20 @@ func (r *Report) Check(ok bool, rule, key string, pos token.Pos, format string, 
 }
 
 // Min declares the hand-confirmed minimum number of obligation instances of a rule.
-func (r *Report) Min(rule string, n int) { r.minCounts[rule] = n }
+func (r *Report) Min(rule string, n int) {
+	if r.ruleAlias != nil {
+		return
+	}
+	r.minCounts[rule] = n
+}
+
+// Borrow runs another property's checker, keeping only the listed rules
+// (renamed as given).
+func (r *Report) Borrow(w *World, run func(*World, *Report), alias map[string]string) {
+	r.ruleAlias = alias
+	defer func() { r.ruleAlias = nil }()
+	run(w, r)
+}
 
 func (r *Report) Infof(format string, a ...any) { r.Info = append(r.Info, fmt.Sprintf(format, a...)) }
 
